@@ -26,6 +26,8 @@ structure Doc where
   tagProp : Str
   tag : Option Str
   keys : List Str
+  /-- string values of the OTHER keys (a second tag property of the member: its const / first enum value / "x") -/
+  others : List (Str × Str) := []
   deriving DecidableEq, Repr
 
 def findEnum (fx : Facts) (ty : Str) : Option EnumF := fx.enums.find? (fun e => e.name = ty)
@@ -91,6 +93,11 @@ inductive Known where
   | sharedChild          -- one tag-cache entry per child: a child mapped by two discriminators gets the last writer's tag
   | unreachableChild     -- base enum drops mapping targets outside the operation-reachable set
   | denyUnknownTag       -- hidden tag field + deny_unknown_fields: the tag key itself is rejected
+  | siteUntyped          -- the use site is typed `serde_json::Value` (nullable inline wrapper at a property, inline array items in a response)
+  | implicitNotSynth     -- discriminator without `mapping` that is not written directly on a component: the const-implied mapping is never synthesised
+  | namedTwin            -- inline union typed with the component union over the same member refs, whose discriminator differs
+  | inlineTwin           -- inline union typed with an earlier inline union over the same refs + property name, whose mapping differs
+  | arrayWrapperFlattened -- `[array-of-union, null]` wrapper is flattened to the union itself: the array (and an outer discriminator) is lost
   deriving DecidableEq, Repr
 
 structure Failure where
@@ -157,8 +164,11 @@ def permits (e : Env) (p t n : Str) : Bool :=
     | some pi => (match pi.const with | some c => c = t | none => true) && (pi.enumVals.isEmpty || pi.enumVals.contains t)
 
 def validDoc (e : Env) (p t n : Str) : Doc :=
-  let keys := match look n e.schemas with | some s => (e.merged s).props.map (·.1) | none => []
-  { tagProp := p, tag := some t, keys := if keys.contains p then keys else keys ++ [p] }
+  let props := match look n e.schemas with | some s => (e.merged s).props | none => []
+  let keys := props.map (·.1)
+  { tagProp := p, tag := some t, keys := if keys.contains p then keys else keys ++ [p],
+    others := (props.filter (fun x => x.1 ≠ p)).map (fun x =>
+      (x.1, match x.2.const with | some c => c | none => (match x.2.enumVals with | v :: _ => v | [] => "x".toList))) }
 
 def allTags (schemas : List (Str × Sch)) : List Str :=
   mkSet (schemas.flatMap (fun e =>
@@ -298,5 +308,126 @@ def dedupK : List Known → List Known
 /-- classes of the failures, or `[]` when some failure is in no known class -/
 def knownOf (fs : List Failure) : List Known :=
   if fs.all (fun f => f.known.isSome) then dedupK (fs.filterMap (·.known)) else []
+
+-- ------------------------------------------------------------------------------------------
+-- use sites: semantics of `#[serde(untagged)]` and the judge for one use site
+
+/-- what an `untagged` trial needs to know about a struct: keys that must be present, and string-valued keys
+typed by a value enum (the permitted wire strings) -/
+structure ShapeF where
+  name : Str
+  req : List Str
+  allowed : List (Str × List Str)
+  deriving DecidableEq, Repr, Inhabited
+
+/-- does decoding `d` as struct `ty` succeed?  (`deny_unknown_fields`, missing required keys, enum-typed tag) -/
+def shapeAccepts (fx : Facts) (shapes : List ShapeF) (d : Doc) (ty : Str) : Bool :=
+  match findStruct fx ty with
+  | none => false
+  | some st =>
+    structAccepts st d &&
+    (match shapes.find? (fun sh => sh.name = ty) with
+     | none => true
+     | some sh =>
+       sh.req.all (fun k => d.keys.contains k) &&
+       (match look d.tagProp sh.allowed, d.tag with
+        | some vs, some t => vs.contains t
+        | _, _ => true) &&
+       d.others.all (fun kv => match look kv.1 sh.allowed with | some vs => vs.contains kv.2 | none => true))
+
+/-- serde `untagged`: the variants are tried IN ORDER, the first one that decodes wins -/
+def firstAccepting (acc : Str → Bool) : List Str → Option Str
+  | [] => none
+  | t :: r => if acc t then some t else firstAccepting acc r
+
+inductive Dec where
+  | rejected
+  | member (ty : Str)     -- decoded into the struct `ty`
+  | untyped               -- kept as a `serde_json::Value`: nothing is selected, nothing is rejected
+  deriving DecidableEq, Repr, Inhabited
+
+/-- decoding one element document at a use site whose core type is `st` -/
+def siteDecode (fx : Facts) (shapes : List ShapeF) (fuel : Nat) (st : SiteTy) (doc : Doc) : Dec :=
+  if st.value then .untyped else
+  match st.en with
+  | none => .rejected
+  | some e =>
+    if e.untagged then
+      (match firstAccepting (shapeAccepts fx shapes doc) e.types with | some t => .member t | none => .rejected)
+    else
+      let tagv := if e.tag = doc.tagProp then doc.tag else look e.tag doc.others
+      let next := match tagv with | some t => look t e.arms | none => e.fallback
+      match next with
+      | none => .rejected
+      | some ty => (match decT fx fuel ty doc with | some s => .member s.name | none => .rejected)
+
+/-- Known class of a use site — a predicate on the INPUT (the spelling, the document around it, and where the
+model says the type comes from); consulted only for failures at that site. -/
+def siteClass (sp : Spec) (site : Site) (o : Origin) : Option Known :=
+  let core := siteCore site.s
+  match core.disc with
+  | none => none
+  | some d =>
+    if o = .value then some .siteUntyped
+    else if site.s.arr && site.s.wrap.isSome then some .arrayWrapperFlattened
+    else
+      let twin : Option Known := match o with
+        | .named n => (match look n sp.schemas with
+            | some s => if s.disc ≠ core.disc then some .namedTwin else none
+            | none => none)
+        | .earlier s => if s.disc ≠ core.disc then some .inlineTwin else none
+        | _ => none
+      match twin with
+      | some k => some k
+      | none =>
+        if d.mapping.isNone then
+          (if (unionRefs core).any (fun c => !(writers sp.schemas c).isEmpty) then some .sharedChild else some .implicitNotSynth)
+        else none
+
+def orK : Option Known → Option Known → Option Known
+  | some k, _ => some k
+  | none, b => b
+
+/-- the judge for ONE use site: `st` is the type the EMITTED code has there -/
+def judgeSite (sp : Spec) (fx : Facts) (shapes : List ShapeF) (site : Site) (st : SiteTy) (cls : Option Known) : List Failure :=
+  let e := envOf sp
+  let core := siteCore site.s
+  match core.disc, intended sp.schemas core with
+  | some d, some m =>
+    let members := unionRefs core
+    if !(m.all (fun x => members.contains x.2 && (look x.2 sp.schemas).isSome)) then [] else
+    let p := d.prop
+    if st.vec ≠ (if site.s.arr then 1 else 0) then [⟨.accept, site.id, [], [], cls⟩]   -- an array document against a non-array type (or vice versa)
+    else
+    let fuel := sp.schemas.length + 2
+    let perEntry := m.flatMap (fun x =>
+      let t := x.1; let tgt := x.2
+      if isUnionSch sp.schemas tgt then [] else
+      if !permits e p t tgt then [] else
+      let doc := validDoc e p t tgt
+      match siteDecode fx shapes fuel st doc with
+      | .untyped => [Failure.mk .tagDispatch site.id t tgt cls]
+      | .rejected => [Failure.mk .accept site.id t tgt (orK cls (classAccept e sp tgt tgt))]
+      | .member ty =>
+        if ty ≠ tgt then [Failure.mk .dispatch site.id t tgt cls]
+        else match findStruct fx ty with
+          | some s => if encodeTag s p (some t) = some t then [] else [Failure.mk .roundtrip site.id t tgt (orK (classRoundtrip e sp p tgt) cls)]
+          | none => [])
+    let perMember := match st.en with
+      | some en =>
+        if en.untagged then [] else
+        members.flatMap (fun c =>
+          if en.arms.any (fun a => a.2 = c) then []
+          else [Failure.mk .member site.id [] c (if !(m.any (fun x => x.2 = c)) then some .memberNotInMapping else cls)])
+      | none => []
+    let perProbe := members.flatMap (fun c =>
+      if isUnionSch sp.schemas c then [] else
+      let doc := validDoc e p unmappedProbe c
+      match siteDecode fx shapes fuel st doc with
+      | .rejected => []
+      | .untyped => [Failure.mk .unmapped site.id unmappedProbe c cls]
+      | .member ty => [Failure.mk .unmapped site.id unmappedProbe ty cls])
+    perEntry ++ perMember ++ perProbe
+  | _, _ => []
 
 end Oas3.Discr
